@@ -88,8 +88,8 @@ const (
 // estimator answers, on the main region.
 func VerifC18New() { c18New(c18RegionMain, 0) }
 
-// VerifC18NewT: thorough tier, additionally every conf target 5..148.
-func VerifC18NewT() { c18New(c18RegionMain, 144) }
+// VerifC18NewT: thorough tier, additionally every conf target 5..52.
+func VerifC18NewT() { c18New(c18RegionMain, 48) }
 
 // VerifC18FindFloorAboveCeiling / VerifC18FindZeroCeiling: the same oracle on
 // the two complementary regions. On the unchanged tree these report the
@@ -213,15 +213,15 @@ func c18StateRaw(w, p uint32) *LinearFeeFunction {
 }
 
 // VerifC18Step: the inductive step. From ANY state satisfying the invariant
-// (width w <= W, position p <= w+1) ANY single operation -- Increment, or a
+// (width w <= W (4 quick / 8 thorough), position p <= w+1) ANY single operation -- Increment, or a
 // block beat IncreaseFeeRate(confTarget) with confTarget 0..w+2 (repeated,
 // consecutive or skipped heights, past the deadline) -- never lowers the
 // offered rate, keeps it <= ceiling, re-establishes the invariant, and puts
 // the rate at the ceiling when the deadline is at most one block away.
-func VerifC18Step() { c18Step(5) }
+func VerifC18Step() { c18Step(4) }
 
-// VerifC18StepT: thorough tier, W = 16.
-func VerifC18StepT() { c18Step(16) }
+// VerifC18StepT: thorough tier, W = 8.
+func VerifC18StepT() { c18Step(8) }
 
 func c18Step(maxW int) {
 	c18FeeFnConfig()
@@ -313,10 +313,10 @@ func VerifC18Deadline() {
 // invariant (arbitrary delta), per position p: no integer overflow / float
 // conversion out of range inside, start <= rate(p) <= end,
 // rate(p) <= rate(p+1).
-func VerifC18Kernel() { c18Kernel(1, 8) }
+func VerifC18Kernel() { c18Kernel(1, 4) }
 
-// VerifC18KernelT: thorough tier, every p < 1008 (16 shards of 63).
-func VerifC18KernelT() { c18Kernel(16, 63) }
+// VerifC18KernelT: thorough tier, every p < 128 (16 shards of 8).
+func VerifC18KernelT() { c18Kernel(16, 8) }
 
 func c18Kernel(blocks, perBlock int) {
 	c18FeeFnConfig()
@@ -336,10 +336,10 @@ func c18Kernel(blocks, perBlock int) {
 // VerifC18Walk: end-to-end statement on a fee function built by the real
 // constructor and driven by a sequence of block beats (heights may repeat or
 // be skipped) and Increments; the offered rate is observed after every step.
-func VerifC18Walk() { c18Walk(3, 2) }
+func VerifC18Walk() { c18Walk(2, 2) }
 
-// VerifC18WalkT: thorough tier, widths 1..5, three steps.
-func VerifC18WalkT() { c18Walk(5, 3) }
+// VerifC18WalkT: thorough tier, widths 1..4, two steps.
+func VerifC18WalkT() { c18Walk(4, 2) }
 
 func c18Walk(maxW, steps int) {
 	c18FeeFnConfig()
